@@ -262,6 +262,41 @@ func decoderKeepsId(w *load.World, c *core.Collector) {
 				}
 			}
 		}
+		// a constructor that is handed the id and puts it there
+		storesParam := func(h *ssa.Function, pi int) bool {
+			if h == nil || !ssax.InModule(h) || pi >= len(h.Params) {
+				return false
+			}
+			for _, hb := range h.Blocks {
+				for _, hi := range hb.Instrs {
+					s, ok := hi.(*ssa.Store)
+					if !ok {
+						continue
+					}
+					fa, ok := s.Addr.(*ssa.FieldAddr)
+					if !ok || fa.Field != idField || ssax.StructOf(fa.X.Type()) != st {
+						continue
+					}
+					if s.Val == ssa.Value(h.Params[pi]) {
+						return true
+					}
+				}
+			}
+			return false
+		}
+		for _, b := range f.Blocks {
+			for _, in := range b.Instrs {
+				call, ok := in.(*ssa.Call)
+				if !ok || call.Call.IsInvoke() {
+					continue
+				}
+				for ai, a := range call.Call.Args {
+					if a == ssa.Value(id) && storesParam(call.Call.StaticCallee(), ai) {
+						stored = true
+					}
+				}
+			}
+		}
 		key := "decoder-keeps-id:" + load.FnKey(f)
 		if stored {
 			c.Add("LAYOUT", key, core.OK, w.Position(f.Pos()), "", props...)
@@ -770,8 +805,21 @@ func callbackRuns(w *load.World, c *core.Collector) {
 		calls := map[*ssa.BasicBlock]bool{}
 		for _, b := range f.Blocks {
 			for _, in := range b.Instrs {
-				if call, ok := in.(ssa.CallInstruction); ok && call.Common().Value == ssa.Value(cb) {
+				call, ok := in.(ssa.CallInstruction)
+				if !ok {
+					continue
+				}
+				if call.Common().Value == ssa.Value(cb) {
 					calls[b] = true
+				}
+				// handed on to a function of the package that takes such an operation itself (and has
+				// its own obligation here)
+				if h := call.Common().StaticCallee(); h != nil && load.PkgPath(h) == load.Mod+"/cluster" && len(h.Blocks) > 0 {
+					for _, a := range call.Common().Args {
+						if a == ssa.Value(cb) {
+							calls[b] = true
+						}
+					}
 				}
 			}
 		}
